@@ -152,7 +152,8 @@ class View:
         self.txs, self.conf, self.com, self.known = {}, {}, None, [set(), set()]
         self.height, self.live, self.refused = 0, [], set()
         self.rewinds, self.late, self.rb = [], {}, None   # rewind targets; (node, hash) -> (height, #rewinds before) of a late preimage
-        for e in evs[:upto]:
+        self.conf_pos, self.rewind_pos = {}, []          # position (event number) of the block that confirmed a tx / of every rewind
+        for pos, e in enumerate(evs[:upto]):
             k = e["ev"]
             # what the node asked to rebroadcast has covered since (rb of OnChain.tla)
             if self.rb and k == "bcast" and e["by"] == self.rb[0]:
@@ -166,10 +167,14 @@ class View:
             elif k == "bcast" and not e["dup"]:
                 ins = [tuple(x) for x in e["ins"]]
                 self.txs[e["tx"]] = {"by": e["by"], "ins": ins, "chan": [i for i, w in zip(ins, e["wal"]) if not w],
-                                     "ok": e["valid"] and e["final"], "sweep": False, "nout": len(e["outs"]), "bh": e["h"]}
+                                     "ok": e["valid"] and e["final"], "sweep": False, "nout": len(e["outs"]), "bh": e["h"],
+                                     "amts": [x["amt"] for x in e["outs"]], "feerate": e["feerate"], "weight": e["weight"], "pos": pos}
+            elif k == "bcast" and e["dup"] and e["tx"] in self.txs:
+                self.txs[e["tx"]].setdefault("again", []).append(e["h"])    # announced again at these heights
             elif k == "sweep" and e["ok"]:
                 ins = [tuple(x) for x in e["ins"]]
-                self.txs[e["tx"]] = {"by": e["node"], "ins": ins, "chan": ins, "ok": True, "sweep": True, "nout": 1}
+                self.txs[e["tx"]] = {"by": e["node"], "ins": ins, "chan": ins, "ok": True, "sweep": True, "nout": 1,
+                                     "amts": [e["out_amt"]], "feerate": 0, "weight": 0, "bh": e["h"], "pos": pos}
             elif k == "commit":
                 self.com = e
                 self.known = [set(e["known"][0]), set(e["known"][1])]
@@ -177,11 +182,13 @@ class View:
                 self.height = e["h"]
                 for t in e["txs"]:
                     self.conf[t] = e["h"]
+                    self.conf_pos[t] = pos
             elif k in ("idle", "jump"):
                 self.height = e["h"]
             elif k == "rewind":
                 self.height = e["h"]
                 self.rewinds.append(e["h"])
+                self.rewind_pos.append(pos)
                 self.rb = None
                 for t in e.get("unconf", []):
                     self.conf.pop(t, None)
@@ -266,16 +273,59 @@ class View:
             return False
         return bool(mine) and all(dead(x) for x in mine)
 
+    def value(self, o):
+        """Value of outpoint o (an output of the commitment or of a transaction of the run)."""
+        if self.com and o[0] == self.com["tx"]:
+            return next((r["amt"] for r in self.com["outs"] if r["v"] == o[1]), None)
+        x = self.txs.get(o[0])
+        return x["amts"][o[1]] if x and o[1] < len(x.get("amts", [])) else None
+
     def is_split_remainder(self, n, o):
-        """o was part of an aggregated claim of n, another input of which a confirmed transaction of
-        somebody else has spent."""
+        """The MECHANISM of the known finding `split_remainder_abandoned`, and nothing else:
+          (a) o was part of an aggregated claim of n another input of which a confirmed transaction of somebody
+              else has taken (update_claims_view_from_matched_txn splits the package; the remainder inherits
+              feerate_previous of the aggregate and is regenerated with FeerateStrategy::ForceBump);
+          (b) the remainder cannot pay that inherited, bumped fee: its value less max(1.25 F, F + 253) x weight
+              is below the dust limit of the claim's output (package.rs feerate_bump returns None, "Can't bump
+              new claiming tx") -- F the highest feerate the aggregate was issued at, the weight bounded from
+              above by the aggregate's weight less 300 per input that is gone;
+          (c) no double spend is involved: n has issued no transaction for o after a block (other than the newest
+              one at that moment) had confirmed a competing spend of one of that transaction's inputs;
+          (d) no reorganisation happened since the first such competing spend confirmed.
+        A claim that is missing for any other reason -- the node keeps issuing a justice transaction that spends an
+        output already spent in the best chain, a reorganisation precedes, the remainder could afford the fee -- is
+        NOT this finding."""
+        agg = []
         for t, x in self.txs.items():
-            if x["by"] == n and not x["sweep"] and o in x["chan"] and len(x["chan"]) > 1:
-                for o2 in x["chan"]:
-                    sp = self.spender(o2)
-                    if o2 != o and sp is not None and self.txs[sp]["by"] != n:
-                        return True
-        return False
+            if x["by"] != n or x["sweep"] or o not in x["chan"] or len(x["chan"]) < 2:
+                continue
+            taken = [o2 for o2 in x["chan"] if o2 != o and self.spender(o2) is not None and self.txs[self.spender(o2)]["by"] != n]
+            if taken:
+                agg.append((x, taken))
+        if not agg:
+            return False
+        # (d) no reorganisation since the split
+        split_pos = min(self.conf_pos.get(self.spender(o2), -1) for _, taken in agg for o2 in taken)
+        if split_pos < 0 or any(p > split_pos for p in self.rewind_pos):
+            return False
+        # (c) no claim of o issued after one of its inputs had a confirmed spend in an earlier block
+        for t, x in self.txs.items():
+            if x["by"] != n or x["sweep"] or o not in x["chan"]:
+                continue
+            for i in x["ins"]:
+                sp = self.spender(i)
+                if sp is not None and sp != t and max([x["bh"]] + x.get("again", [])) > self.conf[sp]:
+                    return False
+        # (b) the remainder's value against the inherited fee
+        x = max((a for a, _ in agg), key=lambda a: (a["feerate"], a["pos"]))
+        rest = [i for i in x["chan"] if self.spender(i) is None]
+        vals = [self.value(i) for i in rest]
+        if o not in rest or any(v is None for v in vals):
+            return False
+        V, F = sum(vals), x["feerate"]
+        w = max(400, x["weight"] - 300 * (len(x["chan"]) - len(rest)))
+        need = max(F + F // 4, F + 253) * w // 1000
+        return V < 1100 or V - need < 546
 
 
 def classify(fail):
